@@ -129,7 +129,21 @@ impl Ls {
         use nix::unistd::{Gid, Group, Uid, User};
         use std::os::unix::fs::{MetadataExt, PermissionsExt};
 
-        let metadata = file_info.metadata().unwrap();
+        // The entry may be gone by now (e.g. removed by an earlier -delete).
+        let metadata = match file_info.metadata() {
+            Ok(metadata) => metadata,
+            Err(e) => {
+                writeln!(
+                    &mut stderr(),
+                    "Error: {}: {}",
+                    file_info.path().to_string_lossy(),
+                    e
+                )
+                .unwrap();
+                matcher_io.set_exit_code(1);
+                return;
+            }
+        };
 
         let inode_number = metadata.ino();
         let number_of_blocks = {
@@ -152,11 +166,18 @@ impl Ls {
         let hard_links = metadata.nlink();
         let user = {
             let uid = metadata.uid();
-            User::from_uid(Uid::from_raw(uid)).unwrap().unwrap().name
+            // Ids without a passwd/group entry are shown as numbers.
+            match User::from_uid(Uid::from_raw(uid)) {
+                Ok(Some(user)) => user.name,
+                _ => uid.to_string(),
+            }
         };
         let group = {
             let gid = metadata.gid();
-            Group::from_gid(Gid::from_raw(gid)).unwrap().unwrap().name
+            match Group::from_gid(Gid::from_raw(gid)) {
+                Ok(Some(group)) => group.name,
+                _ => gid.to_string(),
+            }
         };
         let size = metadata.size();
         let last_modified = {
